@@ -336,6 +336,13 @@ func c11Body(double bool) func(rc *RunCtx) {
 		if simrt.ChanceF(1, 3) {
 			ncap := 1 + simrt.ChooseF(3)
 			nops := 3 + simrt.ChooseF(8)
+			nilElems := simrt.ChooseF(3) == 0
+			box := func(v int) interface{} {
+				if v == 0 {
+					return nil
+				}
+				return v
+			}
 			var nput func(v int) bool
 			var nforce func(v int) bool
 			var nget func() interface{}
@@ -343,10 +350,10 @@ func c11Body(double bool) func(rc *RunCtx) {
 			var nsize func() int
 			if !double {
 				nq := queue.NewRequestQueue(ncap)
-				nput, nforce, nget, nclear, nsize = func(v int) bool { return nq.Put(v) }, func(v int) bool { return nq.PutForce(v) }, nq.GetNoWait, nq.Clear, nq.Size
+				nput, nforce, nget, nclear, nsize = func(v int) bool { return nq.Put(box(v)) }, func(v int) bool { return nq.PutForce(box(v)) }, nq.GetNoWait, nq.Clear, nq.Size
 			} else {
 				nq := queue.NewRequestDoubleQueue(ncap, ncap)
-				nput, nforce, nget, nclear, nsize = func(v int) bool { return nq.Put2(v) }, func(v int) bool { return nq.PutForce2(v) }, nq.GetNoWait, nq.Clear, nq.Size
+				nput, nforce, nget, nclear, nsize = func(v int) bool { return nq.Put2(box(v)) }, func(v int) bool { return nq.PutForce2(box(v)) }, nq.GetNoWait, nq.Clear, nq.Size
 			}
 			simrt.GoNamed("neighbour", func() {
 				var model []int
@@ -356,6 +363,9 @@ func c11Body(double bool) func(rc *RunCtx) {
 				}
 				for i := 0; i < nops; i++ {
 					v := 9000 + i
+					if nilElems && simrt.ChooseF(4) == 0 {
+						v = 0 // the untyped nil: legal, unusual; a get then returns nil and the size shrinks
+					}
 					switch simrt.ChooseF(6) {
 					case 0, 1:
 						ok := nput(v)
